@@ -47,8 +47,9 @@ struct SongOpts
     bool devices;                // tracks may name their MIDI device (FF 09) at their start and switch it later: channels 16+ inside the player
     int game_ccs;                // 0: none; 1: controllers 112..119 of game MIDI dialects appear as plain controllers; 2: and exactly one CC110 (no CC111)
     bool restrikes;              // legato re-strikes of several held keys in one tick (note-offs and note-ons of the same keys together)
+    bool empty_tracks;           // a track (not the first) may hold nothing but its End-of-Track, at tick 0 or after a silence of its own
     SongOpts(): min_tracks(1), max_tracks(8), max_events(40), tempo_changes(true), loops(false), lone_eot(true),
-        sysex_meta(true), big_deltas(false), allow_cc_special(true), force_division(0), devices(false), game_ccs(0), restrikes(true) {}
+        sysex_meta(true), big_deltas(false), allow_cc_special(true), force_division(0), devices(false), game_ccs(0), restrikes(true), empty_tracks(false) {}
 };
 
 static inline SEv mk_chan(uint64_t tick, uint8_t status, int d0, int d1 = -1)
@@ -83,6 +84,12 @@ static inline Song gen_song(Rng &r, const SongOpts &o)
     {
         STrack &tr = s.tracks[(size_t)t];
         uint64_t tick = 0;
+        if(o.empty_tracks && t > 0 && r.chance(0.07))
+        {   // nothing but End-of-Track: standing alone at its tick it is delivered with what precedes it (the song begin), its silence is skipped
+            if(r.chance(0.7)) tick = r.chance(0.5) ? (uint64_t)r.range(1, s.division * 4) : (uint64_t)r.range(s.division * 8, s.division * 400);
+            SEv eot = mk_meta(tick, 0x2F, std::vector<uint8_t>()); eot.serial = 0; tr.ev.push_back(eot);
+            continue;
+        }
         static const char *devnames[] = {"Port A", "Port B", "MPU-401"};
         if(o.devices && r.chance(0.6)) { SEv e = mk_meta_text(0, 0x09, devnames[r.below(3)]); e.serial = 200000; tr.ev.push_back(e); }
         int chans[2] = { t % 16, (t + 8) % 16 };
